@@ -144,7 +144,8 @@ def obs_tuple(o):
     return (comps, o['done'], o['stop'], o['pmq'], o['finq'], o['running'], v, o['cur'] + 1)
 
 
-def explore(W, outcome, chooser, maxlen=400, slow_pm=False, sleepy=False, start_at=0, with_cdb=False, patcher=None):
+def explore(W, outcome, chooser, maxlen=400, slow_pm=False, sleepy=False, start_at=0, with_cdb=False, patcher=None,
+            lockfin=False):
     """Runs one schedule to completion. chooser(enabled_events, step) -> index. Returns
     (trace [(event, obs_before, obs_after)], driver_errors, complete?)"""
     import sched_driver as S
@@ -152,6 +153,7 @@ def explore(W, outcome, chooser, maxlen=400, slow_pm=False, sleepy=False, start_
     d.slow_pm = slow_pm
     d.sleepy = sleepy
     d.patcher = patcher
+    d.lockfin = lockfin
     d.cur = start_at - 1        # start_at > 0: the experiment is restarted from that stage (earlier stages are skipped)
     first = True
     trace = []
